@@ -1,6 +1,6 @@
 NOT_YET = {}
 
-claim("C26", "property-based testing (proptest): round trip + differential against a reference LEB128 decoder",
+claim("C26", "property-based testing (proptest): round trip + differential against a reference LEB128 decoder; thorough tier adds a coverage-guided libFuzzer stage (target varint) with the same reference decoder",
       "Generated u128 values and byte strings; encode/decode round trip and a reference decoder with exact arithmetic decide every case; 200k cases quick, 20M thorough.",
       "Trusted: the 40-line reference decoder in harness/src/props/pure_ordinals.rs.")
 claim("C29", "exhaustive/sampled enumeration against closed-form oracle",
@@ -9,7 +9,7 @@ claim("C29", "exhaustive/sampled enumeration against closed-form oracle",
 claim("C30", "round-trip testing over enumerated and generated sats",
       "print->parse identity for all five notations on first/last/random sat of every height (thorough) plus millions of random sats.",
       "None beyond Sat::from_str being the parser users reach.")
-claim("C31", "grammar-directed property-based testing (proptest) against reference evaluators with big-integer arithmetic",
+claim("C31", "grammar-directed property-based testing (proptest) against reference evaluators with big-integer arithmetic; thorough tier adds a coverage-guided libFuzzer stage (target text) judged by the same reference evaluators",
       "Generated strings around every notation's grammar with boundary numeric leaves, mutations and random strings, through nine public parsers; Ok(v) must be what an exact reference evaluator denotes; panics are violations.",
       "Reference evaluators in harness/src/props/text.rs; one-directional (acceptance only), as the property states.")
 claim("C32", "property-based testing (proptest): independent bijective base-26 and print/parse round trip",
@@ -25,10 +25,10 @@ claim("C34", "property-based testing (proptest): round trip and differential aga
 claim("C20", "property-based testing (proptest) with an independent validity predicate over the built transaction",
       "Generated wallet states, satpoints, recipients, fee rates and targets; a panic is a violation, Err is accepted, every Ok transaction is validated clause by clause by a checker that shares no code with the builder.",
       "UTXO values >= 1 sat, P2TR change addresses and burn targets >= 1 sat (caller preconditions, see DESIGN.md C20); known findings listed in known-findings.txt are excluded by signature and counted.")
-claim("C25", "property-based testing (proptest): round trip + differential against a reference decipherer written from the specification",
+claim("C25", "property-based testing (proptest): round trip + differential against a reference decipherer written from the specification; thorough tier adds a coverage-guided libFuzzer stage (target runestone) with the same differential oracle",
       "Well-formed runestones round-trip through encipher/decipher; generated integer sequences, push layouts and damaged scripts are deciphered by ord and by an independent reference and must agree exactly, flaw precedence included.",
       "The reference decipherer (harness/src/props/runestone.rs) is trusted to implement docs/src/runes/specification.md.")
-claim("C27", "property-based testing (proptest): round trip through reveal scripts + totality on generated witnesses",
+claim("C27", "property-based testing (proptest): round trip through reveal scripts + totality on generated witnesses; thorough tier adds a coverage-guided libFuzzer stage (target witness) on the totality part",
       "Inscriptions built with the public constructor and fields are written to reveal scripts and parsed back field by field; arbitrary witness stacks never panic.",
       "Field values are non-empty, as the property states.")
 claim("C28", "property-based testing (proptest): round trip for three encodings + bounded-decompression oracle",
